@@ -32,8 +32,15 @@ pub fn run_section(sid: &str, tag: &Value, section: &[u8], out: &mut dyn Write) 
         TypeLengthValues::from(section).take(limit + 5).for_each(|r| each.push(strip(tlv_item(Some(r)))));
         let folded = TypeLengthValues::from(section).fold(0usize, |acc, _| if acc > limit + 5 { acc } else { acc + 1 });
         let collected: Vec<Value> = TypeLengthValues::from(section).take(limit + 5).collect::<Vec<_>>().into_iter().map(|r| strip(tlv_item(Some(r)))).collect();
+        // indices at the integer maximum must simply run off the end
+        let far: Vec<Value> = vec![
+            strip(tlv_item(TypeLengthValues::from(section).nth(usize::MAX))),
+            strip(tlv_item(TypeLengthValues::from(section).nth(usize::MAX - 1))),
+            strip(tlv_item(TypeLengthValues::from(section).skip(usize::MAX).next())),
+            strip(tlv_item(TypeLengthValues::from(section).step_by(usize::MAX).nth(1))),
+        ];
         let hint = TypeLengthValues::from(section).size_hint();
-        json!({"k": "ok", "nth": nth, "skip2": skip2, "count": count, "last": last, "each": each, "folded": folded,
+        json!({"k": "ok", "far": far, "nth": nth, "skip2": skip2, "count": count, "last": last, "each": each, "folded": folded,
                "collected": collected, "hint_lo": hint.0, "hint_hi": hint.1.map(|x| x as i64).unwrap_or(-1)})
     })
     .unwrap_or_else(|p| panic_value(&p));
